@@ -641,6 +641,10 @@ func (st *Stack) compactRange(first, last int, expiration *LogExpirationConfig) 
 	if err != nil {
 		// We did not get the lock, so it is not ours to remove.
 		lockFileName = ""
+		if os.IsExist(err) {
+			// Lock contention is not an error; the compaction just did not happen.
+			return false, nil
+		}
 		return false, err
 	}
 
